@@ -1,8 +1,10 @@
 //! C07 engine: MMR position arithmetic, roots and Merkle proofs against MMR.tla.
 use vcommon::*;
 use grin_core::core::hash::Hash;
-use grin_core::core::merkle_proof::MerkleProof;
 use grin_core::core::pmmr::{self, ReadablePMMR, VecBackend, PMMR};
+mod ind;
+mod replay;
+use replay::replay;
 use rand::rngs::StdRng;
 use rand::{Rng, SeedableRng};
 use serde_json::{json, Value};
@@ -20,8 +22,9 @@ fn run(args: &Args) -> i32 {
 		Some("record") => record(args),
 		Some("replay") => replay(args),
 		Some("rewind") => rewind(args),
+		Some("huge") => huge(args),
 		_ => {
-			eprintln!("mmr record|replay|rewind");
+			eprintln!("mmr record|replay|rewind|huge");
 			2
 		}
 	}
@@ -170,7 +173,8 @@ fn rewind(args: &Args) -> i32 {
 				continue;
 			}
 			let p = PMMR::at(&mut ba, size);
-			let root_spec = eval_term(&f["root"], &elem_leaf);
+			let mut ev = ind::Ev::new();
+			let root_spec = ev.term(&f["root"]);
 			match p.root() {
 				Ok(r) if r == root_spec => {}
 				_ => mism.push(json!({"what":"root_after_history","kind":kind,"nl":nl})),
@@ -181,7 +185,7 @@ fn rewind(args: &Args) -> i32 {
 			}
 			for pr in f["proofs"].as_array().unwrap() {
 				let pos = pr["pos"].as_u64().unwrap();
-				let path_spec: Vec<Hash> = pr["path"].as_array().unwrap().iter().map(|t| eval_term(t, &elem_leaf)).collect();
+				let path_spec: Vec<Hash> = ev.terms(&pr["path"]);
 				nchecks += 1;
 				match p.merkle_proof(pos) {
 					Ok(x) => {
@@ -192,6 +196,7 @@ fn rewind(args: &Args) -> i32 {
 					Err(e) => mism.push(json!({"what":"merkle_proof_err_after_history","kind":kind,"pos":pos,"err":e})),
 				}
 			}
+			mism.append(&mut ev.prim);
 		}
 		out.put(&json!({"checks":nchecks,"mismatches":mism}));
 	}
@@ -199,147 +204,65 @@ fn rewind(args: &Args) -> i32 {
 	0
 }
 
-/// Direction A: each case is one small MMR emitted by MC_MMR (root term, proof-path terms).
-/// The real PMMR must produce exactly these hashes; MerkleProof::verify must accept the honest
-/// proof and refuse every single corruption (ProofsOK in the spec).
-fn replay(args: &Args) -> i32 {
-	let cases = read_ndjson(args.req("cases"));
+
+/// Positions beyond TLC's 32-bit integers (2^30 .. 2^64): return values of the pure position functions, one
+/// `Huge` event per position; the driver compares them with MMR.tla's closed forms evaluated over unbounded
+/// integers (lib/checks/_c07_closed.py).  A panic is data (null).
+fn huge(args: &Args) -> i32 {
+	let n = args.u64("n", 300);
+	let seed = args.u64("seed", 1);
 	let mut out = NdWriter::create(args.req("out"));
-	for c in cases {
-		let nl = c["nl"].as_u64().unwrap();
-		let size_spec = c["size"].as_u64().unwrap();
-		let mut ba = VecBackend::<Elem>::new();
-		let mut size = 0;
-		let mut lpos = vec![];
-		for i in 0..nl {
-			let mut p = PMMR::at(&mut ba, size);
-			lpos.push(p.push(&Elem::of(i)).unwrap());
-			size = p.unpruned_size();
+	let mut rng: StdRng = SeedableRng::from_seed([(seed as u8) ^ 0x5a; 32]);
+	// (position, all functions?)  positions >= 2^62: only the functions that do no arithmetic on the position
+	let mut ps: Vec<(u64, bool)> = vec![];
+	for k in 30..=62u32 {
+		let b = 1u64 << k;
+		for p in [b - 2, b - 1, b, b + 1] {
+			ps.push((p, true));
 		}
-		let p = PMMR::at(&mut ba, size);
-		let mut mism: Vec<Value> = vec![];
-		if size != size_spec {
-			mism.push(json!({"what":"size","spec":size_spec,"real":size}));
-		}
-		let root_spec = eval_term(&c["root"], &elem_leaf);
-		let root = p.root().unwrap();
-		if root != root_spec {
-			mism.push(json!({"what":"root","nl":nl}));
-		}
-		let mut nchecks = 0u64;
-		for (i, pr) in c["proofs"].as_array().unwrap().iter().enumerate() {
-			let pos = pr["pos"].as_u64().unwrap();
-			let d = pr["d"].as_u64().unwrap();
-			if lpos[i] != pos {
-				mism.push(json!({"what":"leafpos","i":i,"spec":pos,"real":lpos[i]}));
-			}
-			let path_spec: Vec<Hash> = pr["path"].as_array().unwrap().iter().map(|t| eval_term(t, &elem_leaf)).collect();
-			let proof = match p.merkle_proof(pos) {
-				Ok(x) => x,
-				Err(e) => {
-					mism.push(json!({"what":"merkle_proof_err","pos":pos,"err":e}));
-					continue;
-				}
-			};
-			if proof.path != path_spec {
-				mism.push(json!({"what":"proof_path","pos":pos,"nl":nl}));
-			}
-			if proof.mmr_size != size {
-				mism.push(json!({"what":"proof_size","pos":pos}));
-			}
-			let el = Elem::of(d);
-			// honest, from the specification's path (not the implementation's)
-			let sp = MerkleProof { mmr_size: size, path: path_spec.clone() };
-			if sp.verify(root_spec, &el, pos).is_err() {
-				mism.push(json!({"what":"honest_refused","pos":pos,"nl":nl}));
-			}
-			nchecks += 1;
-			// corruptions
-			let mut bad: Vec<(String, MerkleProof, Elem, u64)> = vec![];
-			bad.push(("other_elem".into(), sp.clone(), Elem::of(d + 1000), pos));
-			for (j, q) in lpos.iter().enumerate() {
-				if j != i {
-					bad.push((format!("other_pos:{}", q), sp.clone(), el, *q));
-				}
-			}
-			for k in 0..path_spec.len() {
-				let mut pp = sp.clone();
-				pp.path[k] = junk_hash();
-				bad.push((format!("alter:{}", k), pp, el, pos));
-			}
-			if !path_spec.is_empty() {
-				let mut pp = sp.clone();
-				pp.path.pop();
-				bad.push(("shorten_end".into(), pp, el, pos));
-				let mut pp = sp.clone();
-				pp.path.remove(0);
-				bad.push(("shorten_front".into(), pp, el, pos));
-			}
-			let mut pp = sp.clone();
-			pp.path.push(junk_hash());
-			bad.push(("lengthen_end".into(), pp, el, pos));
-			let mut pp = sp.clone();
-			pp.path.insert(0, junk_hash());
-			bad.push(("lengthen_front".into(), pp, el, pos));
-			for (name, pp, e, q) in bad {
-				nchecks += 1;
-				let r = std::panic::catch_unwind(|| pp.verify(root_spec, &e, q).is_ok());
-				match r {
-					Ok(false) => {}
-					Ok(true) => mism.push(json!({"what":"corruption_accepted","class":name,"pos":pos,"nl":nl})),
-					Err(_) => mism.push(json!({"what":"verify_panic","class":name,"pos":pos,"nl":nl})),
-				}
-			}
-		}
-		// Pruning marks live outside the forest: root and proof paths are functions of the construction
-		// only (MMR.tla: RootTerm / ProofPathD never look at removals), so removing leaves must leave the
-		// root and the proofs of the remaining leaves unchanged (hashes of removed leaves are retained).
-		let patterns: Vec<(&str, Vec<usize>)> = vec![
-			("last", vec![lpos.len() - 1]),
-			("first", vec![0]),
-			("even", (0..lpos.len()).step_by(2).collect()),
-			("all_but_first", (1..lpos.len()).collect()),
-		];
-		for (pname, rm) in patterns {
-			let mut bb = VecBackend::<Elem>::new();
-			let mut sz = 0;
-			for i in 0..nl {
-				let mut p = PMMR::at(&mut bb, sz);
-				p.push(&Elem::of(i)).unwrap();
-				sz = p.unpruned_size();
-			}
-			{
-				let mut p = PMMR::at(&mut bb, sz);
-				for i in &rm {
-					let _ = p.prune(lpos[*i]);
-				}
-			}
-			let p = PMMR::at(&mut bb, sz);
-			nchecks += 1;
-			match std::panic::catch_unwind(std::panic::AssertUnwindSafe(|| p.root())) {
-				Ok(Ok(r)) if r == root_spec => {}
-				_ => mism.push(json!({"what":"root_after_prune","pattern":pname,"nl":nl})),
-			}
-			for (i, pr) in c["proofs"].as_array().unwrap().iter().enumerate() {
-				if rm.contains(&i) {
-					continue;
-				}
-				let pos = pr["pos"].as_u64().unwrap();
-				let path_spec: Vec<Hash> = pr["path"].as_array().unwrap().iter().map(|t| eval_term(t, &elem_leaf)).collect();
-				nchecks += 1;
-				match std::panic::catch_unwind(std::panic::AssertUnwindSafe(|| p.merkle_proof(pos))) {
-					Ok(Ok(x)) => {
-						if x.path != path_spec {
-							mism.push(json!({"what":"proof_path_after_prune","pattern":pname,"pos":pos,"nl":nl}));
-						}
-					}
-					Ok(Err(e)) => mism.push(json!({"what":"merkle_proof_err_after_prune","pattern":pname,"pos":pos,"nl":nl,"err":e})),
-					Err(_) => mism.push(json!({"what":"merkle_proof_panic_after_prune","pattern":pname,"pos":pos,"nl":nl})),
-				}
-			}
-		}
-		out.put(&json!({"nl":nl,"size":size,"checks":nchecks,"mismatches":mism}));
 	}
+	for i in 0..n {
+		let k = 30 + (i % 32) as u32;
+		ps.push((rng.gen_range(1u64 << k, 1u64 << (k + 1)), true));
+	}
+	let top = 1u64 << 63;
+	for p in [top - 2, top - 1, top, top + 1, u64::MAX - 3, u64::MAX - 2, u64::MAX - 1, u64::MAX] {
+		ps.push((p, false));
+	}
+	for _ in 0..(n / 10) {
+		ps.push((rng.gen_range(1u64 << 62, u64::MAX), false));
+	}
+	fn g<T: Into<Value>, F: FnOnce() -> T + std::panic::UnwindSafe>(f: F) -> Value {
+		match std::panic::catch_unwind(f) {
+			Ok(v) => v.into(),
+			Err(_) => Value::Null,
+		}
+	}
+	let one = args.u64("p", 0);
+	if one != 0 {
+		ps = vec![(one, one <= (1u64 << 62) + 1)];
+	}
+	for (p, all) in ps {
+		let mut e = json!({"k":"Huge","p":p,
+			"pmh": g(|| { let (a, b) = pmmr::peak_map_height(p); vec![a, b] }),
+			"height": g(|| pmmr::bintree_postorder_height(p)),
+			"leaf_idx": g(|| match pmmr::pmmr_leaf_to_insertion_index(p) { Some(v) => json!(v), None => json!(-1) }),
+			"nleaves": g(|| pmmr::n_leaves(p)),
+			"peaks": g(|| pmmr::peaks(p)),
+		});
+		if all {
+			let m = e.as_object_mut().unwrap();
+			m.insert("family".into(), g(|| { let (a, b) = pmmr::family(p); vec![a, b] }));
+			m.insert("is_left".into(), g(|| pmmr::is_left_sibling(p)));
+			m.insert("round_up".into(), g(|| pmmr::round_up_to_leaf_pos(p)));
+			m.insert("leftmost".into(), g(|| pmmr::bintree_leftmost(p)));
+			m.insert("rightmost".into(), g(|| pmmr::bintree_rightmost(p)));
+			m.insert("ins2pos".into(), g(|| pmmr::insertion_to_pmmr_index(p / 2)));
+		}
+		out.put(&e);
+	}
+	let cnt = out.n;
 	out.finish();
+	println!("{}", json!({"events": cnt}));
 	0
 }
